@@ -37,16 +37,20 @@ REGISTRY = {
     "C13": ["digitsVal_eq_posValue", "digitsVal_append_digit", "ratio_literal_exact", "percent_literal_exact",
             "percent_frac_literal_exact", "portion_var_ratio", "portion_var_percent", "portion_var_ratio_rejected",
             "roundtrip_string", "roundtrip_asset", "roundtrip_account", "roundtrip_portion", "roundtrip_number",
-            "roundtrip_monetary"], "C14": [], "C15": [], "C16": ["unbound_exact", "duplicate_exact", "unused_exact", "resolution_exact"], "C17": ["clean_check_sound", "silent_check_no_sendall_shape_error", "checkExpression_sound",
+            "roundtrip_monetary"], "C14": ["show_never_panics", "syntax_error_range_wf", "show_syntax_error_never_panics", "splitLines_ne_nil",
+            "percent_literal_exact", "percent_frac_literal_exact", "ratio_literal_exact"],
+    "C15": ["gtEq_refl", "gtEq_total", "gtEq_trans", "gtEq_antisymm", "gtEq_iff", "contains_mono", "contains_disjoint"],
+    "C16": ["unbound_exact", "duplicate_exact", "unused_exact", "resolution_exact"], "C17": ["clean_check_sound", "silent_check_no_sendall_shape_error", "checkExpression_sound",
             "checkExpression_errors_mono", "checkExpression_declared"], "C18": ["check_never_panics", "check_total", "symbols_never_panic", "hover_never_panics", "goto_never_panics",
             "lspHover_never_panics", "check_keeps_parse_diags", "complete_is_benign_expr"],
     "C19": ["lsp_state_is_latest", "lsp_hover_answers_latest", "lsp_unknown_document", "lsp_no_cross_document",
             "lsp_queries_pure", "hover_expr_sound", "hover_expr_complete", "goto_is_declaration",
             "hover_text_is_decl_type"],
-    "C20": [],
+    "C20": ["check_exit_iff_error"],
 }
 
 # evidence level per property: "proof" only when REGISTRY[pid] is non-empty and carries the property
 LEVEL = {pid: ("proof" if ths else "other") for pid, ths in REGISTRY.items()}
 LEVEL["C20"] = "translation_validation"
 LEVEL["C15"] = "translation_validation"
+LEVEL["C14"] = "other"
